@@ -819,6 +819,10 @@ func (as *AbacoSource) Configure(config *AbacoSourceConfig) (err error) {
 func (as *AbacoSource) distributePackets(allpackets []*packets.Packet, now time.Time) {
 	as.frameLock.Lock()
 	defer as.frameLock.Unlock()
+	verifSync("lock", "fl", &as.frameLock)
+	defer verifSync("unlock", "fl", &as.frameLock)
+	verifAcc("etq", &as.frameLock, true)
+	verifAcc("nfn", &as.nextFrameNum, false)
 	for _, p := range allpackets {
 		if p.IsExternalTrigger() {
 			as.eTrigPackets = append(as.eTrigPackets, p)
@@ -975,6 +979,7 @@ func (as *AbacoSource) StartRun() error {
 	}
 	as.buffersChan = make(chan AbacoBuffersType, 100)
 	as.readPeriod = 50 * time.Millisecond
+	verifSync("spawn", "prod", nil)
 	go as.readerMainLoop()
 	return nil
 }
@@ -992,6 +997,8 @@ type AbacoBuffersType struct {
 
 func (as *AbacoSource) readerMainLoop() {
 	defer close(as.buffersChan)
+	defer verifSync("close", "bufc", as.buffersChan)
+	verifSync("start", "prod", nil)
 	const timeoutPeriod = 5 * time.Second
 	timeout := time.NewTimer(timeoutPeriod)
 	defer timeout.Stop()
@@ -1008,6 +1015,7 @@ awaitmoredata:
 	for {
 		select {
 		case <-as.abortSelf:
+			verifSync("recvc", "abort", as.abortSelf)
 			log.Printf("Abaco read was aborted")
 			return
 
@@ -1100,6 +1108,7 @@ awaitmoredata:
 				fmt.Printf("Panic! %s\n", msg)
 				panic(msg)
 			}
+			verifSync("send", "bufc", as.buffersChan)
 			as.buffersChan <- AbacoBuffersType{
 				datacopies:     datacopies,
 				lastSampleTime: lastSampleTime,
@@ -1127,7 +1136,9 @@ awaitmoredata:
 // for Lancero), we'll also want to handle those changes in this loop.
 func (as *AbacoSource) getNextBlock() chan *dataBlock {
 	panicTime := time.Duration(cap(as.buffersChan)) * as.readPeriod
+	verifSync("spawn", "asm", nil)
 	go func() {
+		verifSync("start", "asm", nil)
 		for {
 			select {
 			case <-time.After(panicTime):
@@ -1136,19 +1147,25 @@ func (as *AbacoSource) getNextBlock() chan *dataBlock {
 			case buffersMsg, ok := <-as.buffersChan:
 				//  Check is buffersChan closed? Recognize that by receiving zero values and/or being drained.
 				if buffersMsg.datacopies == nil || !ok {
+					verifSync("recvc", "bufc", as.buffersChan)
 					if err := as.closeDevices(); err != nil {
 						block := new(dataBlock)
 						block.err = err
+						verifSync("send", "nb", as.nextBlock)
 						as.nextBlock <- block
 					}
+					verifSync("close", "nb", as.nextBlock)
 					close(as.nextBlock)
 					return
 				}
+				verifSync("recv", "bufc", as.buffersChan)
 
 				// as.buffersChan contained valid data, so act on it.
 				block := as.distributeData(buffersMsg)
+				verifSync("send", "nb", as.nextBlock)
 				as.nextBlock <- block
 				if block.err != nil {
+					verifSync("close", "nb", as.nextBlock)
 					close(as.nextBlock)
 				}
 				return
@@ -1202,23 +1219,33 @@ func (as *AbacoSource) distributeData(buffersMsg AbacoBuffersType) *dataBlock {
 	segDuration := time.Duration(roundint((1e9 * float64(framesUsed-1)) / as.sampleRate))
 	firstTime := lastSampleTime.Add(-segDuration)
 	block := new(dataBlock)
+	verifAcc("blk", block, true)
 	nchan := len(datacopies)
 	block.segments = make([]DataSegment, nchan)
 
 	// Here we find external triggers from the queue of relevant packets, and number this block's frames.
 	// The reader loop (distributePackets) uses the same state concurrently.
 	as.frameLock.Lock()
+	verifSync("lock", "fl", &as.frameLock)
+	verifAcc("etq", &as.frameLock, true)
+	verifAcc("nfn", &as.nextFrameNum, true)
 	externalTriggers := as.extractExternalTriggers()
 	firstFrame := as.nextFrameNum
 	as.nextFrameNum += FrameIndex(framesUsed)
+	verifSync("unlock", "fl", &as.frameLock)
 	as.frameLock.Unlock()
 
 	// TODO: we should loop over devices here, matching devices to channels.
 	var wg sync.WaitGroup
 	for channelIndex := 0; channelIndex < nchan; channelIndex++ {
 		wg.Add(1)
+		verifSync("wgadd", "wga", &wg)
+		verifSync("spawn", "asmw", &block.segments[channelIndex])
 		go func(channelIndex int) {
 			defer wg.Done()
+			defer verifSync("wgdone", "wga", &wg)
+			verifSync("start", "asmw", &block.segments[channelIndex])
+			verifAcc("seg", &block.segments[channelIndex], true)
 			data := datacopies[channelIndex]
 			seg := DataSegment{
 				rawData:         data,
@@ -1233,6 +1260,7 @@ func (as *AbacoSource) distributeData(buffersMsg AbacoBuffersType) *dataBlock {
 		}(channelIndex)
 	}
 	wg.Wait()
+	verifSync("wgwait", "wga", &wg)
 	block.nSamp = framesUsed // every channel's data has this length; set once, not by every channel's goroutine
 	if as.heartbeats != nil {
 		pmb := float64(buffersMsg.totalBytes) / 1e6
